@@ -123,6 +123,7 @@ type GenCfg struct {
 	Helpers   bool
 	BreakN    bool
 	LazyBreak bool
+	BuiltinOnly bool // no harness-registered modifiers / helpers (they allocate)
 }
 
 type gen struct {
@@ -255,7 +256,7 @@ func (g *gen) cond() Cond {
 				return Cond{Hlp: "len", HlpArgs: []string{p.Path}, Op: pick(g.r, ops6), R: strconv.Itoa(n)}
 			}
 		case 3:
-			if g.cfg.Helpers {
+			if g.cfg.Helpers && !g.cfg.BuiltinOnly {
 				if lit, ok := g.literalFor(p); ok && p.K != kMissing {
 					return Cond{Hlp: "veq", HlpArgs: []string{p.Path, lit}}
 				}
@@ -325,6 +326,9 @@ func (g *gen) mods() []ModCall {
 		case 3:
 			ms = append(ms, ModCall{Name: pick(g.r, []string{"jsonEscape", "htmlEscape", "urlEncode", "linkEscape", "jsonQuote", "attrEscape", "jsEscape", "cssEscape"})})
 		case 4:
+			if g.cfg.BuiltinOnly {
+				continue
+			}
 			args := []string{}
 			for k := g.r.Rng.Intn(3); k > 0; k-- {
 				args = append(args, g.modArg())
@@ -608,6 +612,10 @@ func (g *gen) sw(depth int) TNode {
 
 func (g *gen) ctxset() TNode {
 	n := CtxSet{Var: pick(g.r, []string{"x1", "x2", "si", "bv"}), KW: pick(g.r, []string{"ctx", "context"})}
+	if g.cfg.BuiltinOnly {
+		// keep the declared kinds of si / bv: an ill-typed comparison makes strconv allocate its error
+		n.Var = pick(g.r, []string{"x1", "x2"})
+	}
 	switch g.r.Rng.Intn(4) {
 	case 0:
 		n.Src = strconv.Itoa(g.r.Rng.Intn(50))
